@@ -16,6 +16,9 @@ import (
 func init() { an.RoleResolver = resolveRole }
 
 func resolveRole(p *an.Prog, rel, spec string) *ssa.Function {
+	if rel == engine {
+		return resolveEngineRole(p, spec)
+	}
 	if rel != mainP {
 		return nil
 	}
@@ -221,4 +224,59 @@ func isRunnerErrors(r *an.Run, fa *ssa.FieldAddr) bool {
 	}
 	sl, ok := st.Field(fa.Field).Type().Underlying().(*types.Slice)
 	return ok && an.IsErrorType(sl.Elem())
+}
+
+// resolveEngineRole: the arms of the two compilers that build the position
+// matcher / replacer are recognised by the receiver type and by what they
+// construct, whatever they are called.
+func resolveEngineRole(p *an.Prog, spec string) *ssa.Function {
+	var recv, builds string
+	switch spec {
+	case "matcherCompiler.compilePosMatcher":
+		recv, builds = "matcherCompiler", "PosMatcher"
+	case "replacerCompiler.compilePosReplacer":
+		recv, builds = "replacerCompiler", "PosReplacer"
+	default:
+		return nil
+	}
+	var out *ssa.Function
+	for _, f := range p.PkgFuncs(engine) {
+		if f.Parent() != nil || f.Blocks == nil || f.Synthetic != "" || f.Signature.Recv() == nil {
+			continue
+		}
+		if !strings.HasSuffix(an.ShortType(f.Signature.Recv().Type()), "."+recv) {
+			continue
+		}
+		constructs := false
+		for _, b := range f.Blocks {
+			for _, in := range b.Instrs {
+				switch x := in.(type) {
+				case *ssa.Alloc:
+					if x.Comment == "complit" && strings.HasSuffix(an.ShortType(x.Type()), "engine."+builds) {
+						constructs = true
+					}
+				case *ssa.MakeInterface:
+					if strings.HasSuffix(an.ShortType(x.X.Type()), "engine."+builds) {
+						constructs = true
+					}
+				}
+			}
+		}
+		if constructs {
+			if out != nil {
+				return nil
+			}
+			out = f
+		}
+	}
+	return out
+}
+
+// posArmName is the describe-string of the arm that compiles token.Pos values
+// on the given side ("matcher" / "replacer").
+func posArmFunc(r *an.Run, side string) *ssa.Function {
+	if side == "matcher" {
+		return fn(r, engine, "matcherCompiler.compilePosMatcher")
+	}
+	return fn(r, engine, "replacerCompiler.compilePosReplacer")
 }
